@@ -788,15 +788,12 @@ func (dsc *dataStoreCommand) del(keyNames []string, reclaim bool) (output respVa
 
 	count := 0
 	for _, keyName := range keyNames {
-		sk, exists := dsc.getKeyObjectUnlocked(keyName)
+		_, exists := dsc.getKeyObjectUnlocked(keyName)
 		if exists {
 			count++
 
-			if reclaim {
-				dsc.ds.data.remove(keyName)
-			} else {
-				sk.expiresAt = minTime
-			}
+			// UNLINK only differs from DEL in when memory is reclaimed; the key is gone at once
+			dsc.ds.data.remove(keyName)
 		} else if reclaim {
 			// remove expired now (if it exists)
 			dsc.ds.data.remove(keyName)
